@@ -162,6 +162,29 @@ class Verifier:
                 raise OutOfSubset(f"contract of {c.qual} gives no type for parameter {p}")
         return names
 
+    def make_probes(self, eng, names):
+        """terms whose model values describe the concrete pre-state (for replay)"""
+        pr = {}
+        leaves, _ = walk_leaves(names)
+        for path, v in leaves.items():
+            if isinstance(v, Sym):
+                if v.kind == 'ref' and v.cls in self.spec.entities:
+                    pr[path] = v.t
+                    for f, ty in self.spec.entities[v.cls].items():
+                        if ty in ('num', 'int', 'bool', 'str', 'any', 'optnum') or ty.startswith('enum:') or ty.startswith('opt:ref') or ty.startswith('ref:'):
+                            try:
+                                pr[f"{path}.{f}"] = eng.heap_read(v, f).t
+                            except Exception:
+                                pass
+                else:
+                    pr[path] = v.t
+            elif isinstance(v, ListObj):
+                pr[path + '.n'] = v.n
+            elif isinstance(v, DictObj):
+                pr[path + '.nk'] = v.nk
+        pr['now'] = eng.st.now
+        return pr
+
     def invariant_clauses(self, eng, sv, names):
         out = []
         seen = set()
@@ -263,6 +286,7 @@ class Verifier:
                 st.assume(hyp_of(cl))
             eng.seek = fi.yields()[frm]
         eng.frm = frm
+        eng.probes = self.make_probes(eng, names)
         st.locals = dict(names)
         old = eng.snapshot(names)
         outcome = None
